@@ -14,7 +14,7 @@ PROP = dict(
           "from a small pool (frequent collisions, deletions, re-adds, flips), 1-70 measurements per write from special and random "
           "floats in rescaled and plain units; non-trivial = a write happens after a deletion, re-add or file/internal flip. text unit: "
           "1-3 generated texts (see C02 grammar) read through one Reader (optionally with tool-supplied labels), every record written; "
-          "non-trivial = two results whose file configuration differs. Texts include lines of 4-60 KiB (1 in 40) and values at the top of the float range; a reader failure on an input whose lines are all short is a violation. Distinct = distinct case JSON."),
+          "non-trivial = two results whose file configuration differs. Iteration counts up to MaxInt64 (API unit) and long counts in texts; numbers built around the parser's boundaries (short mantissa x 10^15..45, integers 2^53..2^64 in full, prefixes of powers of five, 17-digit forms). Texts include lines of 4-60 KiB (1 in 40) and values at the top of the float range; a reader failure on an input whose lines are all short is a violation. Distinct = distinct case JSON."),
     assumptions=["benchfmt.Reader is a faithful inverse (checked independently by C02-C04)"],
     units=[
         R("api", "A", "./c01", "TestC01API", (4000, 6), (100000, 16)),
